@@ -1,6 +1,6 @@
 """C06 — BVH broad phase plus narrow phase finds exactly the brute-force collisions.
 
-Proof: coq/theories/Proofs/Bvh{Dict,Proofs,Detect,Whitelists,Colliders}.v + Props/C06.v about the
+Proof: coq/theories/Proofs/Bvh{Dict,Proofs,Detect,Whitelists,Colliders,NoAssert,Real}.v + Props/C06.v about the
 model Model/Bvh.v (BoundingVolumeHierarchy, self_collision.detect / detect_any,
 urdf_utils.self_collision_whitelists) on top of the C05 tree model.
 
@@ -30,7 +30,8 @@ from .c14 import gen_mesh, quat_to_rot
 
 PID = "C06"
 PROOF_FILES = ["theories/Props/C06.v", "theories/Proofs/BvhDict.v", "theories/Proofs/BvhProofs.v",
-               "theories/Proofs/BvhDetect.v", "theories/Proofs/BvhWhitelists.v", "theories/Proofs/BvhColliders.v"]
+               "theories/Proofs/BvhDetect.v", "theories/Proofs/BvhWhitelists.v", "theories/Proofs/BvhColliders.v",
+               "theories/Proofs/BvhNoAssert.v", "theories/Proofs/BvhReal.v"]
 
 HEADER = """From Coq Require Import List ZArith PrimFloat.
 From D3 Require Import Model.AabbTree Model.AabbTreeRun Model.Bvh Model.BvhRun.
@@ -511,8 +512,11 @@ def judge_world(wcase, wres, stats):
     objs = wres["objects"]
     inv_ok, tm_dirty, seen_ids = True, False, {}
     frames_seen = set()
+    seen_here = {}          # detect / detect_any answers since the last state change
     for k, (cmd, rec) in enumerate(zip(wcase["cmds"], wres["cmds"])):
         op = rec["op"]
+        if op in ("fill", "add", "update", "set_joint", "move", "set_wl"):
+            seen_here = {}
         if rec["exc"] and op in ("fill", "add", "update", "set_joint", "move"):
             if inv_ok and not (op in ("update", "fill") and rec["exc"] == "KeyError" and tm_dirty is None):
                 fails.append(f"cmd {k} ({op}) raised {rec['exc']}: {rec.get('msg', '')[:80]}")
@@ -616,6 +620,9 @@ def judge_world(wcase, wres, stats):
                     fails.append(f"cmd {k}: detect misses {sorted(must - marked)[:4]} (collide with a frame outside their whitelist)")
                 elif not (marked <= may):
                     fails.append(f"cmd {k}: detect marks {sorted(marked - may)[:4]} without any non-whitelisted collision")
+                seen_here["detect"] = bool(marked)
+                if "detect_any" in seen_here and seen_here["detect_any"] != bool(marked) and not c04:
+                    fails.append(f"cmd {k}: detect marks {sorted(marked)[:3]} but detect_any returned {seen_here['detect_any']} in the same state")
                 stats["detect"] += 1
                 stats["detect_mixed"] += bool(marked) and len(marked) < n
                 stats["detect_partner_only"] += len(marked - must)
@@ -623,6 +630,9 @@ def judge_world(wcase, wres, stats):
             else:
                 if rec["r"] != bool(must) and not c04:
                     fails.append(f"cmd {k}: detect_any returned {rec['r']}, all-pairs oracle {bool(must)}")
+                seen_here["detect_any"] = bool(rec["r"])
+                if "detect" in seen_here and seen_here["detect"] != bool(rec["r"]) and not c04:
+                    fails.append(f"cmd {k}: detect_any returned {rec['r']} but detect marked {'some' if seen_here['detect'] else 'no'} frame in the same state")
                 stats["detect_any"] += 1
                 stats["detect_any_true"] += bool(must)
     return fails, inv_ok
